@@ -13,7 +13,7 @@ World *g_world = nullptr;
 
 const char *rk_names[] = { "data", "data_ttl5", "data_ttl0", "nodata", "nodata_nosoa", "nxdomain", "nxdomain_nosoa", "servfail",
                            "refused", "notimp", "formerr_noopt", "formerr_opt", "tc", "malformed", "empty", "ck_none", "ck_valid",
-                           "ck_valid2", "ck_wrongclient", "badcookie", "badcookie_bare", "cname_data", "data_mixed", "data_multi" };
+                           "ck_valid2", "ck_wrongclient", "badcookie", "badcookie_bare", "cname_data", "data_mixed", "data_multi", "data_soa" };
 const char *fg_names[] = { "wrongid", "wrongname", "wrongtype", "wrongclass", "caseflip", "wrongsrc", "othersock", "nocookie", "badclientcookie", "wrongsrc-framed" };
 const char *fs_names[] = { "socket", "setsockopt", "bind", "connect", "getsockname", "send_refused", "send_wouldblock", "send_short", "recv_reset" };
 
@@ -1544,6 +1544,10 @@ Bytes World::build_reply(const Transmission &tx, int kind, Packet &pk)
       add_data(50, qq.qtype, owner);
       add_data(7, qq.qtype, owner);
       pk.ttl = 7;
+      break;
+    case RK_DATA_SOA:
+      soa(10, 5);
+      add_data(100, qq.qtype, owner); // the entry lives as long as its answer records; the SOA's TTL runs out first
       break;
     default: break;
   }
